@@ -31,7 +31,7 @@ REPORT = ['modules', 'parameterized_modules', 'histories', 'evaluations', 'probe
           'ordered_pairs_covered']
 FLOORS = {'quick': {'histories': 1000, 'probe_comparisons': 20000},
           'thorough': {'histories': 4000, 'probe_comparisons': 80000}}
-TIMEOUT = {'quick': 1800, 'thorough': 14000}
+TIMEOUT = {'quick': 1800, 'thorough': 5400}
 PLAIN = (dict, list, tuple, str, int, float, bool, bytes, type(None))
 
 
